@@ -57,4 +57,25 @@ Proof.
   change (TAccept c :: ?x) with ([@TAccept P c] ++ x). rewrite writes_app, writes_chunks. reflexivity.
 Qed.
 
+(* C08 in the pinned form: the per-connection invariant at quiescence plus the output *)
+Theorem per_connection_sequential :
+  (0 < p_step P)%N ->
+  forall (c : nat) (fs : list (list byte)),
+  Forall frame_ok fs -> (forall f, In f fs -> decode P f <> None) ->
+  (N.of_nat (length (wire fs)) < p_limit P)%N ->
+  forall (E : list (eev P)) (s0 : sstate P) (s : sv P) (T : list (tev P)),
+  clean P c E -> input_of P false c E = wire fs ->
+  exec P (E ++ [Poll]) (init_sv P s0) = (s, T) -> stat s = Running ->
+  In c (map cid (conns s)) ->
+  exists hcs : list (hcall P),
+    map (fun h => Some (h_cl h)) hcs = map (decode P) fs /\
+    Forall (complete P) hcs /\
+    view P c T = TAccept c :: flat_map (chunk P c) hcs /\
+    writes P c T = flat_map (resp_writes P) hcs.
+Proof.
+  intros Hs c fs H1 H2 H3 E s0 s T H4 H5 H6 H7 H8.
+  destruct (connection_view_quiescent P Hs c fs H1 H2 H3 E s0 s T H4 H5 H6 H7 H8) as (hcs & Ha & Hb & Hc).
+  exists hcs. repeat split; auto. now apply writes_of_view.
+Qed.
+
 End Thms.
